@@ -11,7 +11,7 @@ open Scc
 variable {q : Core.Prog} {p : Fun.CheckedProgram}
 
 /-- a term of the fragment in operand position (of a statement whose operand has type `i64`) -/
-theorem operand_sim (hcod : CodOK p q) :
+theorem operand_sim (hcod : CodOK p q) {cp : Bool} {μ : Nat} :
     ∀ (b : Fun.Term), good p b = true → ∀ {st : CompileState} {B : Core.Term}
       {st' : CompileState} {env : Fun.Env} {K : Fun.Stack} {ρ0 ρ : CEnv} {n : Nat} {out : Out}
       (Sx : Core.Term → Core.Stmt),
@@ -22,8 +22,8 @@ theorem operand_sim (hcod : CodOK p q) :
         (.mutilde ρ (Core.sigmaName n) (Sx (.var .prd (Core.sigmaName n) τ)))) →
       (∀ ρ' n' z τ v V, n ≤ n' → SigExt n ρ ρ' → Core.Env.lookup ρ' z = .ok V →
         VRel (GP p) q n v V → (z.name = sig → z.id < n') →
-        Chunk p q (R p q) true (.ret v K) ⟨Sx (.var .prd z τ), ρ', out, n'⟩) →
-      Chunk p q (R p q) false (.eval b env K) ⟨Sx B, ρ, out, n⟩
+        Chunk p q (R p q) true cp μ (.ret v K) ⟨Sx (.var .prd z τ), ρ', out, n'⟩) →
+      Chunk p q (R p q) false cp μ (.eval b env K) ⟨Sx B, ρ, out, n⟩
   | .var x vty chi, hg, st, B, st', _, _, _, _, _, _, Sx, hsp, hcB, hst, htn, he, hbd, hag, _, hF => by
     simp only [good] at hg
     obtain ⟨τ, rfl, hnc⟩ := hcod.ncd hg
@@ -68,7 +68,7 @@ theorem operand_sim (hcod : CodOK p q) :
       (by simp [pureD, goodPs_pureFOs p as hg.1]) hcB hst htn he hbd hag (by rw [hB]; exact hnc) hF
   | .paren t, hg, st, B, st', env, K, ρ0, ρ, n, out, Sx, hsp, hcB, hst, htn, he, hbd, hag, hK, hF => by
     have f1 : FSteps p (.eval (.paren t) env K) (.eval t env K) [] 1 := .one rfl
-    refine Chunk.prefix f1 (.refl _) rfl (fun h => by cases h) ?_
+    refine Chunk.prefix f1 (.refl _) rfl (fun h => by cases h) (fun h => .inr h) ?_
     exact operand_sim hcod t (by simpa [good] using hg) Sx hsp (by rwa [c_paren] at hcB) hst
       ⟨by simpa [fv] using htn.fv, by simpa [binderNames] using htn.bd, htn.nosig⟩
       (by simpa [fv] using he) hbd hag hK hF
